@@ -386,6 +386,9 @@ type Solver struct {
 	unknown int
 	dur     time.Duration
 	log     io.Writer
+	bin     string
+	args    []string
+	restarts int
 }
 
 func NewSolver(bin string, args ...string) *Solver {
@@ -396,7 +399,7 @@ func NewSolver(bin string, args ...string) *Solver {
 	if err := cmd.Start(); err != nil {
 		panic(err)
 	}
-	s := &Solver{cmd: cmd, in: in, out: bufio.NewReader(outp)}
+	s := &Solver{cmd: cmd, in: in, out: bufio.NewReader(outp), bin: bin, args: args}
 	io.WriteString(in, "(set-option :timeout 20000)\n")
 	if p := os.Getenv("VERIF_SMTLOG"); p != "" {
 		s.log, _ = os.Create(p)
@@ -425,6 +428,40 @@ func (s *Solver) readLine() string {
 	return strings.TrimSpace(l)
 }
 
+// readLineTimeout waits for one line of solver output; ok=false when the solver does not answer in time.
+func (s *Solver) readLineTimeout(d time.Duration) (string, bool) {
+	type res struct {
+		l   string
+		err error
+	}
+	ch := make(chan res, 1)
+	go func() {
+		l, err := s.out.ReadString('\n')
+		ch <- res{l, err}
+	}()
+	select {
+	case r := <-ch:
+		if r.err != nil {
+			panic("solver died: " + r.err.Error() + " " + r.l)
+		}
+		return strings.TrimSpace(r.l), true
+	case <-time.After(d):
+		return "", false
+	}
+}
+
+// restart kills a stuck solver and starts a fresh one with every definition sent so far.
+func (c *Ctx) restartSolver() {
+	old := c.solver
+	old.cmd.Process.Kill()
+	old.cmd.Wait()
+	ns := NewSolver(old.bin, old.args...)
+	ns.queries, ns.sat, ns.unsat, ns.unknown, ns.dur, ns.log = old.queries, old.sat, old.unsat, old.unknown, old.dur, old.log
+	ns.restarts = old.restarts + 1
+	c.solver = ns
+	ns.send(c.allDefs.String())
+}
+
 // Check asks whether the conjunction of conds is satisfiable. Returns "sat"/"unsat"/"unknown".
 // If sat and want != nil, values of want are fetched.
 func (c *Ctx) Check(conds []*Term, want []*Term) (string, map[*Term]uint64) {
@@ -448,7 +485,15 @@ func (c *Ctx) Check(conds []*Term, want []*Term) (string, map[*Term]uint64) {
 	}
 	b.WriteString("(check-sat)\n")
 	s.send(b.String())
-	res := s.readLine()
+	res, answered := s.readLineTimeout(40 * time.Second)
+	if !answered {
+		// z3's own soft timeout did not fire: treat as unknown and replace the solver process
+		s.queries++
+		s.unknown++
+		s.dur += time.Since(t0)
+		c.restartSolver()
+		return "unknown", nil
+	}
 	for strings.HasPrefix(res, "(error") || res == "" {
 		if strings.HasPrefix(res, "(error") {
 			panic("solver error: " + res)
